@@ -392,7 +392,25 @@ func (w *World) forgeProofKind(b int, h, below uint64, kind int) (Proof, *Block,
 	sg := w.signer(b)
 	own := Sig{sg.Id(), sg.Msg(h, refBuilder(protocol.LEAN_HELIX_PREPARE, w.instance, h, p.Ref.V, p.Ref.Hash).Build().Raw())}
 	if kind < 0 {
-		kind = w.ch.Pick("fp-kind", 5)
+		kind = w.ch.Pick("fp-kind", 6)
+	}
+	if kind == 5 {
+		// mixed proof: genuine PREPARE signatures for the block a Byzantine leader showed around, under a
+		// PREPREPARE reference for ANOTHER (never validated) block signed by that same Byzantine leader
+		ld := w.keys.IdxOf(w.leader(h, p.Ref.V))
+		if ld < 0 || ld >= w.cfg.N || !w.nodes[ld].byz {
+			kind = 0
+		} else {
+			x := w.freshBlock(h, ld, w.ch.Pick("fp-poison", 2) == 1)
+			lsg := w.signer(ld)
+			pr.PP = Ref{Type: protocol.LEAN_HELIX_PREPREPARE, Instance: w.instance, H: h, V: p.Ref.V, Hash: x.Hash()}
+			pr.PPSig = Sig{lsg.Id(), lsg.Msg(h, refBuilder(protocol.LEAN_HELIX_PREPREPARE, w.instance, h, p.Ref.V, x.Hash()).Build().Raw())}
+			if !sg.Id().Equal(lsg.Id()) {
+				pr.PSigs = append(pr.PSigs, own)
+			}
+			w.use("byz.proof-mixed-hash")
+			return pr, x, true
+		}
 	}
 	switch kind {
 	case 0: // whatever genuine material exists + own signature (may or may not reach quorum)
@@ -538,6 +556,11 @@ func (w *World) advNewView(b int, h, v uint64, tag string) bool {
 			c := caps[w.ch.Pick("stale-cap", len(caps))]
 			if c.msg.Vote.Proof.PP.V < tv {
 				ownProof, staleBlk = c.msg.Vote.Proof, c.raw.Block
+			}
+		}
+		if !ownProof.Present && w.ch.Pick("stale-mixed", 3) == 2 {
+			if p, bk, ok := w.forgeProofKind(b, h, tv, 5); ok && bk != nil {
+				ownProof, staleBlk = p, bk
 			}
 		}
 		if !ownProof.Present {
